@@ -1138,6 +1138,10 @@ result_t NumberDataType::getRawValueFromFloat(float val, unsigned int* output) c
   } else {
     if (m_divisor == 1) {
       if (hasFlag(SIG)) {
+        double max = exp2(m_bitCount - 1);
+        if (!(val >= -max && val < max)) {
+          return RESULT_ERR_OUT_OF_RANGE;  // value out of range
+        }
         long signedValue = static_cast<long>(val);
         if (signedValue < 0 && m_bitCount != 32) {
           value = (unsigned int)(signedValue + (1 << m_bitCount));
@@ -1146,6 +1150,8 @@ result_t NumberDataType::getRawValueFromFloat(float val, unsigned int* output) c
         }
       } else if (val < 0) {
         return RESULT_ERR_INVALID_NUM;  // invalid value
+      } else if (!(val < exp2(m_bitCount))) {
+        return RESULT_ERR_OUT_OF_RANGE;  // value out of range
       } else {
         value = static_cast<unsigned int>(val);
       }
